@@ -20,10 +20,14 @@
      - C01_other_streams_untouched: a step about one stream leaves the request state of every other stream alone;
        the decoder / encoder states thread through in frame order / completion order (C09_hpack_run; sc_enc is only
        written by finish_request: C01_response_buffered gives its new value).
-   The whole-run statement for one request (C01_request_integrity_statement) is stated and not proved here: see below. *)
+     - C01_multiplexed_assembly: over whole clean runs, any interleaving: every stream in the table holds exactly what
+       replaying its own frames gives (C01_assembled_body / C01_assembled_request read that as body and request).
+   The trace-level statement for one request (C01_request_integrity_statement: "exactly one ODispatch sid rq appears")
+   is stated and not proved here: see below. *)
 From H2V Require Import Base.Bytes Base.MachineInt Base.Result Gen.GenConsts Impl.Hpack Impl.ServerConn Impl.ServerInst
   Proofs.SrvBase Proofs.SrvIsoRef Proofs.SrvIsoMoves Proofs.SrvIsoSteps Proofs.SrvIsoHdr Proofs.SrvIsoHdrStep
-  Proofs.SrvIsoRun Proofs.SrvIsoErr Proofs.SrvIsoReq Proofs.SrvFlowSend Proofs.SrvIsoResp Proofs.SrvIsoNI Proofs.SrvIsoExamples.
+  Proofs.SrvIsoRun Proofs.SrvIsoErr Proofs.SrvIsoReq Proofs.SrvFlowSend Proofs.SrvIsoResp Proofs.SrvIsoNI Proofs.SrvIsoOwn
+  Proofs.SrvIsoLog Proofs.SrvIsoExamples.
 From Coq Require Import ZArith.
 Local Open Scope N_scope.
 
@@ -117,6 +121,47 @@ Theorem C01_other_streams_untouched :
 Proof. exact other_streams_untouched. Qed.
 Print Assumptions C01_other_streams_untouched.
 
+(* MULTIPLEXED REQUEST ASSEMBLY. The (ghost) log of a run - `logged .. evs L st`: one item per header-block fragment the
+   stream loop handled, `LH fr fs carry` with the fields fs and the carry the reference decoder gives it from the
+   decoder state at that moment (st threads that state), and one item `LD fr` per DATA frame taken. `asm cfg items`
+   replays the items of ONE stream from a fresh stream: hfold (header_field folded) over the fields of each fragment,
+   DATA payloads appended. In any clean run, whatever the interleaving of streams, handler completions, timers and
+   the fates of other streams: every stream in the table holds exactly what replaying ITS OWN items gives. *)
+Theorem C01_multiplexed_assembly :
+  forall hstate (dec_field : hstate -> N -> bytes -> dec_res hstate) enc_field enc_set_max cfg h0 evs,
+    clean dec_field enc_field enc_set_max cfg h0 evs ->
+    exists L st,
+      logged hstate dec_field enc_field enc_set_max cfg h0 evs L st /\
+      fst (fst st) = sc_dec (run dec_field enc_field enc_set_max cfg h0 evs) /\
+      (sc_sl_done (run dec_field enc_field enc_set_max cfg h0 evs) = false ->
+       (forall x, In x (sc_strms (run dec_field enc_field enc_set_max cfg h0 evs)) ->
+          (get_hdr x, st_recvBody x) = asm cfg (own_items (st_id x) L)) /\
+       (forall i, In i L -> lsid i <= sc_highestID (run dec_field enc_field enc_set_max cfg h0 evs))).
+Proof. exact log_inv. Qed.
+Print Assumptions C01_multiplexed_assembly.
+
+(* reading asm: the body is the concatenation of the stream's DATA payloads, whatever came in between ... *)
+Theorem C01_assembled_body : forall cfg L,
+  rq_body (hd_req (fst (asm cfg L))) = concat (data_payloads L) /\ snd (asm cfg L) = Z.of_N (len (concat (data_payloads L))).
+Proof. exact asm_body. Qed.
+Print Assumptions C01_assembled_body.
+
+(* ... and a block HEADERS CONTINUATION* cut anywhere (block_items: END_HEADERS on the last fragment only) whose
+   fields - all fragments together - the model accepts, followed by DATA frames, gives the request the fields spell
+   (request_of), with the payloads as body; headers finished; the pseudo-header flags say which were present *)
+Theorem C01_assembled_request : forall cfg frs ds hF,
+  block_items true frs -> hfold cfg hdr0 (fields_of frs) = Some hF ->
+  let a := asm cfg (items_of frs ++ map LD ds) in
+  hd_req (fst a) = rq_append_body (request_of empty_req (fields_of frs)) (concat (map sf_payload ds)) /\
+  hd_headersFinished (fst a) = true /\
+  snd a = Z.of_N (len (concat (map sf_payload ds))) /\
+  hd_pMethod (fst a) = is_some (field_val S_method (fields_of frs)) /\
+  hd_pPath (fst a) = is_some (field_val S_path (fields_of frs)) /\
+  hd_pScheme (fst a) = is_some (field_val S_scheme (fields_of frs)) /\
+  hd_path (fst a) = opt_or (field_val S_path (fields_of frs)) [].
+Proof. exact asm_request. Qed.
+Print Assumptions C01_assembled_request.
+
 (* The whole-run statement for one request, NOT proved here (the per-step theorems above and in Props/C09.v are its
    ingredients; what is missing is the induction over the frames of the request that carries "the table entry of
    sid is hfold over the fields decoded so far, its body the DATA payloads so far" through C09_hpack_fragment,
@@ -189,3 +234,11 @@ Example C01_example_request_of :
   mkReq [80;79;83;84] [47] [104;116;116;112;115] None
         [([99;111;110;116;101;110;116;45;108;101;110;103;116;104], [53]); ([120],[121])] [].
 Proof. exact m_request_of. Qed.
+
+(* C01_assembled_request on stream 1 of the example above: the three fragments of its block with the fields the
+   reference decodes from each (and the carries [92], [64], []), then its three DATA frames: the request is m_rq1,
+   the one its handler was started with *)
+Example C01_example_assembled :
+  block_items true a_frs /\ (exists hF, hfold m_cfg hdr0 (fields_of a_frs) = Some hF) /\
+  hd_req (fst (asm m_cfg (items_of a_frs ++ map LD a_ds))) = m_rq1.
+Proof. split; [exact a_block|]. split; [exact a_accepted | exact a_request]. Qed.
